@@ -97,6 +97,14 @@ class Ctx:
         if d.kind == 'stmt' and isinstance(d.ast, ast.Assign) and len(d.ast.targets) == 1 and \
                 isinstance(d.ast.targets[0], ast.Name) and d.ast.targets[0].id == name:
             return d.ast.value, d
+        if d.kind == 'stmt' and isinstance(d.ast, ast.Assign) and len(d.ast.targets) == 1:
+            # lower, upper = axis[0], axis[-1]
+            t, v = d.ast.targets[0], d.ast.value
+            if isinstance(t, (ast.Tuple, ast.List)) and isinstance(v, (ast.Tuple, ast.List)) and \
+                    len(t.elts) == len(v.elts) and all(isinstance(x, ast.Name) for x in t.elts):
+                ids = [x.id for x in t.elts]
+                if ids.count(name) == 1 and not (astx.names(v) & set(ids)):
+                    return v.elts[ids.index(name)], d
         return None
 
     def is_param(self, name, at):
@@ -608,6 +616,7 @@ def _mentions_flag(e):
 def eps(repo, out):
     """Every out-of-bounds comparison `x < lo - t` / `x > hi + t` has a tolerance t >= 0 for every grid sign."""
     seen_anchor = 0
+    anchor = bounds_site(repo)[0]
     for rel in SCAN:
         if not repo.exists(rel):
             continue
@@ -633,7 +642,7 @@ def eps(repo, out):
                         out.ok(fn, bt.cmp, why)
                     else:
                         out.bad(fn, bt.cmp, why, key=f'tolerance-{bt.kind}')
-                    if (rel, fn.qualname) == (INTERP, 'InterpND._interpolate'):
+                    if (rel, fn.qualname) == (anchor.rel, anchor.qualname):
                         seen_anchor += 1
     if seen_anchor < 2:
         raise AnalysisError('the two bounds comparisons of InterpND._interpolate were not recognised')
@@ -728,12 +737,42 @@ def _flag_guard(out, fn, stmt, what):
     return verdict
 
 
+def bounds_site(repo):
+    """(function holding the bounds loop, its Ctx, the statement of InterpND._interpolate that reaches it).
+
+    The loop lives in InterpND._interpolate itself, or in a method of InterpND that _interpolate calls with its
+    points argument (`self._check_bounds(xi)`); in that case the third item is the calling statement."""
+    top = repo.func(INTERP, 'InterpND._interpolate')
+    ctx = Ctx(top)
+    if any(astx.enclosing(i_, (ast.For,)) is not None for i_, g_, o_ in _bounds_ifs(ctx) if g_ or o_):
+        return top, ctx, None
+    xi = top.node.args.args[1].arg if len(top.node.args.args) > 1 else None
+    mod = repo.module(INTERP)
+    for st in astx.walk_stmts(top.node.body):
+        if not isinstance(st, (ast.Expr, ast.Assign)):
+            continue
+        c = st.value
+        if isinstance(c, ast.Call) and isinstance(c.func, ast.Attribute) and astx.path(c.func.value) == 'self':
+            h = mod.funcs.get(f'InterpND.{c.func.attr}')
+            if h is None or len(h.node.args.args) < 2:
+                continue
+            hctx = Ctx(h)
+            if not any(astx.enclosing(i_, (ast.For,)) is not None for i_, g_, o_ in _bounds_ifs(hctx) if g_ or o_):
+                continue
+            hp = h.node.args.args[1].arg
+            passed = c.args[0] if c.args else astx.kwarg(c, hp)
+            if passed is None or astx.path(passed) != xi:
+                raise AnalysisError(f'{h.qualname} is not called with the points `{xi}` of _interpolate')
+            return h, hctx, st
+    raise AnalysisError('no comparison of the requested points with the grid ends found inside a loop of '
+                        'InterpND._interpolate or of a method it calls with its points')
+
+
 @rule('C15.bounds', floor=9)
 def bounds(repo, out):
     """Bounds test: lower end with `<`, upper end with `>`, same axis as the tested column, or-joined, raising."""
     # ------------------------------------------------------------------ InterpND._interpolate
-    fn = repo.func(INTERP, 'InterpND._interpolate')
-    ctx = Ctx(fn)
+    fn, ctx, call_st = bounds_site(repo)
     g = ctx.g
     xi = fn.node.args.args[1].arg if len(fn.node.args.args) > 1 else None
     cands = [(i_, g_, o_) for i_, g_, o_ in _bounds_ifs(ctx) if astx.enclosing(i_, (ast.For,)) is not None]
@@ -863,8 +902,11 @@ def bounds(repo, out):
         else:
             out.ok(fn, loop, 'every axis is tested: the loop is only left by exhaustion or by the raise')
     # (5) runs whenever the flag is off
-    if loop is not None and _flag_guard(out, fn, loop, 'the bounds check'):
-        out.ok(fn, loop, 'bounds check runs whenever self.extrapolate is False')
+    top = repo.func(INTERP, 'InterpND._interpolate')
+    if loop is not None and _flag_guard(out, fn, loop, 'the bounds check') and \
+            (call_st is None or _flag_guard(out, top, call_st, f'the call of {fn.qualname}')):
+        out.ok(top if call_st is not None else fn, call_st if call_st is not None else loop,
+               'bounds check runs whenever self.extrapolate is False')
     # ------------------------------------------------------------------ semi-structured bracket
     fs = repo.func(ALGO, 'InterpAlgorithmSemi.bracket')
     cs = Ctx(fs)
@@ -974,7 +1016,16 @@ def order(repo, out):
     ctx = Ctx(fn)
     g = ctx.g
     loops = []
-    for ifst, good, _ in _bounds_ifs(ctx):
+    bfn, bctx, call_st = bounds_site(repo)
+    if call_st is not None:
+        loops.extend(g.nodes_of(call_st))      # the bounds loop runs inside this call
+        hg = bctx.g
+        hl = [n for i_, g_, _o in _bounds_ifs(bctx) if g_ for lp in [astx.enclosing(i_, (ast.For,))] if lp is not None
+              for n in hg.nodes_of(lp)]
+        # ... on every path through the helper
+        if not hl or hg.path([hg.entry], [hg.exit], avoid=hl, labels=cfgm.noexc) is not None:
+            out.bad(bfn, bfn.node, f'{bfn.qualname} can return without entering its bounds loop', key='helper-skips-loop')
+    for ifst, good, _ in ([] if call_st is not None else _bounds_ifs(ctx)):
         lp = astx.enclosing(ifst, (ast.For,))
         if lp is not None and good:
             loops.extend(g.nodes_of(lp))
@@ -2628,6 +2679,24 @@ _CHECK_BODY = (
     '                    raise OutOfBoundsError("One of the requested xi is out of bounds",\n'
     '                                           i, value, self.grid[i][0], self.grid[i][-1])\n')
 _CHECK_BLOCK = '        if not self.extrapolate:\n' + _CHECK_BODY
+_HELPER = ('    def _check_bounds(self, xi):\n'
+           '        \"\"\"Raise if a coordinate lies outside of the grid.\"\"\"\n'
+           '        for idim, pts in enumerate(xi.T):\n'
+           '            dim_grid = self.grid[idim]\n'
+           '            lower, upper = dim_grid[0], dim_grid[-1]\n'
+           '            eps = 1e-14 * abs(upper)\n'
+           '            if not (np.any(pts < lower - eps) or np.any(pts > upper + eps)):\n'
+           '                continue\n'
+           '            below = np.where(lower > pts)[0]\n'
+           '            above = np.where(pts > upper)[0]\n'
+           '            violated_idx = set(below).union(above).pop()\n'
+           '            raise OutOfBoundsError("One of the requested xi is out of bounds",\n'
+           '                                   idim, pts[violated_idx], lower, upper)\n\n')
+_EVS = '    def _evaluate_spline(self, values):\n'
+
+
+def _helper_edit(helper=_HELPER, call='            self._check_bounds(xi)\n'):
+    return dict(old=_CHECK_BODY, new=call, also=[(_I, _EVS, helper + _EVS)])
 _GUARD_BODY = (
     '            for i, p in enumerate(xi.T):\n'
     '                grid_i = self.grid[i]\n'
@@ -2709,6 +2778,18 @@ selftest(
     Mutant('zeroguard-helper-wrong-argument', _AK, '        jj2 = np.where(np.atleast_1d(w32 + w4) > eps)',
            '        jj2 = _safe_idx(w2 + w31, eps)', 'C15.zeroguard',
            also=[(_AK, 'class InterpAkima(InterpAlgorithm):', _AK_HELPER + 'class InterpAkima(InterpAlgorithm):')]),
+    Mutant('helper-signed-eps', _I, expect='C15.eps', **_helper_edit(_HELPER.replace('abs(upper)', 'upper'))),
+    Mutant('helper-swapped-ends', _I, expect='C15.bounds',
+           **_helper_edit(_HELPER.replace('dim_grid[0], dim_grid[-1]', 'dim_grid[-1], dim_grid[0]'))),
+    Mutant('helper-early-return', _I, expect='C15.order',
+           **_helper_edit(_HELPER.replace('        for idim, pts', '        if xi.shape[0] > 1:\n            return\n        for idim, pts'))),
+    Mutant('helper-called-when-flag-on', _I, '        if not self.extrapolate:\n' + _CHECK_BODY,
+           '        if self.extrapolate:\n            self._check_bounds(xi)\n', ['C15.bounds', 'C15.order'],
+           also=[(_I, _EVS, _HELPER + _EVS)]),
+    Mutant('helper-first-axis-only', _I, expect='C15.bounds',
+           **_helper_edit(_HELPER.replace('                continue\n', '                break\n'))),
+    Mutant('helper-wrong-reduction-evaluated', _I, expect='C15.exact_slinear',
+           **_helper_edit(_HELPER.replace('np.any(pts < lower - eps)', 'np.all(pts < lower - eps)'))),
     Mutant('bounds-upper-only', _I, _BT, 'if np.any(p > self.grid[i][-1] + eps):', 'C15.bounds'),
     Mutant('semi-nonstrict-low', _A, '                if x < grid[0]:\n                    if not self.extrapolate:',
            '                if x <= grid[0]:\n                    if not self.extrapolate:', 'C15.bounds'),
@@ -2957,6 +3038,8 @@ selftest(
            '        xnew = self._interpolate(x[:1])\n\n        if compute_derivative:', 'C15.entry'),
     # ---------------------------------------------------------------- twins
     Twin('twin-flag-branches-swapped', _I, _CHECK_BLOCK, _CHECK_BLOCK_FLIPPED),
+    Twin('twin-bounds-helper-method', _I, **_helper_edit()),
+    Twin('twin-bounds-helper-keyword', _I, **_helper_edit(call='            self._check_bounds(xi=xi)\n')),
     Twin('twin-minmax-reduction', _I, _BT,
          'if np.min(p) < self.grid[i][0] - eps or p.max() > self.grid[i][-1] + eps:'),
     Twin('twin-minmax-inbounds-guard', _I, _CHECK_BODY, _GUARD_BODY.replace(
